@@ -11,9 +11,13 @@ NameSeq == << Nm("", ""), Nm("", "x"), Nm("", "y"), Nm("A", ""), Nm("A", "x"), N
               Nm("B", ""), Nm("B", "x"), Nm("B", "y") >>
 KT == << <<"top", "">>, <<"iq", "get">>, <<"iq", "set">>, <<"iq", "result">>, <<"iq", "error">>,
          <<"msg", "normal">>, <<"msg", "chat">>, <<"pres", "">>, <<"pres", "unavailable">> >>
-PatU == [i \in 1..81 |-> Pat(KT[((i - 1) \div 9) + 1][1], KT[((i - 1) \div 9) + 1][2],
-                             NameSeq[((i - 1) % 9) + 1].sp, NameSeq[((i - 1) % 9) + 1].lo)]
-Idx(p) == CHOOSE i \in 1..81 : PatU[i] = p
+(* pattern 82: a top-level namespace-only pattern for the multiplexer's OWN stanza namespace (mux.Handle accepts it: *)
+(* it refuses stanza NAMES only); it matches every stanza, which is a top-level element like any other              *)
+NPat == 82
+PatU == [i \in 1..NPat |-> IF i = 82 THEN Pat("top", "", "NS", "")
+                           ELSE Pat(KT[((i - 1) \div 9) + 1][1], KT[((i - 1) \div 9) + 1][2],
+                                    NameSeq[((i - 1) % 9) + 1].sp, NameSeq[((i - 1) % 9) + 1].lo)]
+Idx(p) == CHOOSE i \in 1..NPat : PatU[i] = p
 
 Bit(m, i) == (m \div (2 ^ (i - 1))) % 2 = 1
 Own(kt, m) == {(kt - 1) * 9 + i : i \in {j \in 1..9 : Bit(m, j)}}
@@ -47,9 +51,10 @@ OutAlt(a) == [inv |-> [i \in 1..Len(a.inv) |-> [h |-> Idx(a.inv[i].h), seen |-> 
               wire |-> a.wire]
 (* the table itself is not repeated in every vector: the driver rebuilds it from      *)
 (* (kt, mask, oth) with the index sets written to mux_universe.json                  *)
-Vec(kt, m, oth, e, pr) ==
-  [kt |-> kt, mask |-> m, oth |-> oth, el |-> e, progs |-> pr,
-   alts |-> SetToSeq({OutAlt(a) : a \in Alternatives(TableOf(TableIdx(kt, m, oth)), e, pr)})]
+VecX(kt, m, oth, ex, e, pr) ==
+  [kt |-> kt, mask |-> m, oth |-> oth, extra |-> SetToSeq(ex), el |-> e, progs |-> pr,
+   alts |-> SetToSeq({OutAlt(a) : a \in Alternatives(TableOf(TableIdx(kt, m, oth) \cup ex), e, pr)})]
+Vec(kt, m, oth, e, pr) == VecX(kt, m, oth, {}, e, pr)
 
 (* vector groups are SEQUENCES indexed by a mixed-radix code (no big sets to normalise) *)
 D(i, div, mod) == ((i - 1) \div div) % mod
@@ -106,18 +111,26 @@ VReg == [i \in 1..(9 * 9 * 2 * 3) |->
                inv |-> [j \in 1..Len(d.inv) |-> [h |-> Idx(d.inv[j].h), hid |-> t1[d.inv[j].h]]],
                wire |-> d.wire]]
 
+(* the stanza namespace as a top-level namespace-only pattern: it takes every stanza (whole, from its start element) *)
+(* before the stanza tables are consulted, and no other top-level element                                          *)
+VNSTop == [i \in 1..(8 * 8 * 5) |->
+             LET kt == D(i, 1, 8) + 2  m == SweepMasks[D(i, 8, 8) + 1]
+                 e == St(kt, WType(kt), "f", <<InNames[D(i, 64, 5) + 1]>>)
+             IN VecX(kt, m, i % 2, {82}, e, DerivedProgs(e, m + i))]
+          \o [i \in 1..(8 * 5) |-> VecX(1, SweepMasks[D(i, 1, 8) + 1], i % 2, {82}, TopEl(InNames[D(i, 8, 5) + 1]), <<>>)]
+          \o [i \in 1..8 |-> VecX(D(i, 1, 8) + 2, 0, 0, {82}, St(D(i, 1, 8) + 2, WType(D(i, 1, 8) + 2), "f", <<>>), <<2>>)]
 Deep == IF Tier = "quick" THEN 2 ELSE 3
 Groups == << VTop, VIq, VIqEmpty, VIqTwo, StanzaBase(6, Deep), StanzaBase(8, Deep), StanzaBase(7, 1),
              StanzaBase(9, 1), VMsgType, Sweep(6, 2, NProg), Sweep(8, 2, NProg),
-             IF Tier = "quick" THEN <<>> ELSE Sweep(6, 3, 4) >>
+             IF Tier = "quick" THEN <<>> ELSE Sweep(6, 3, 4), VNSTop >>
 
-InPart(g) == Part = 0 \/ (Part = 1 /\ g \in {1, 2, 3, 4, 7, 8, 9}) \/ (Part = 2 /\ g \in {5, 10})
+InPart(g) == Part = 0 \/ (Part = 1 /\ g \in {1, 2, 3, 4, 7, 8, 9, 13}) \/ (Part = 2 /\ g \in {5, 10})
              \/ (Part = 3 /\ g \in {6, 11, 12})
 ASSUME JsonSerialize("mux_universe.json",
                      [pats |-> PatU, others |-> [kt \in 1..9 |-> SetToSeq(Others(kt))]])
-ASSUME \A g \in 1..12 : InPart(g) => ndJsonSerialize("mux_vectors_" \o ToString(g) \o ".ndjson", Groups[g])
+ASSUME \A g \in 1..13 : InPart(g) => ndJsonSerialize("mux_vectors_" \o ToString(g) \o ".ndjson", Groups[g])
 ASSUME Part \in {0, 1} => ndJsonSerialize("mux_reg.ndjson", VReg)
-ASSUME PrintT(<<"EMITTED", [g \in 1..12 |-> IF InPart(g) THEN Len(Groups[g]) ELSE 0]>>)
+ASSUME PrintT(<<"EMITTED", [g \in 1..13 |-> IF InPart(g) THEN Len(Groups[g]) ELSE 0]>>)
 
 ENext == UNCHANGED vars
 =============================================================================
